@@ -246,7 +246,16 @@ def execute(sc, mutant=None, want_ops=False, want_schedule=False):
         # harness instrumentation of the three entry points of the lifecycle: instance attributes that
         # forward to the real bound methods (open_link hands cf._link_error_cb to the driver)
         real_lerr, real_open, real_close = cf._link_error_cb, cf.open_link, cf.close_link
-        cf._link_error_cb = lambda errmsg: call('lerr', faults.attempt, lambda: real_lerr(errmsg))
+        from harness.vsched import vthreading as _vt
+
+        def lerr_entry(errmsg):
+            # 1990dc5: a report made from inside send_packet is only remembered; send_packet calls _link_error_cb again
+            # after it released _send_lock -- that second call is the report that is bracketed
+            se = getattr(cf, '_sender_errors', None)
+            if se is not None and se.get(_vt.current_thread()) is not None:
+                return real_lerr(errmsg)
+            return call('lerr', faults.attempt, lambda: real_lerr(errmsg))
+        cf._link_error_cb = lerr_entry
         cf.open_link = lambda uri: call('open', att_of(uri), lambda: real_open(uri))
         cf.close_link = lambda: call('close', st['att'], real_close)
 
@@ -765,8 +774,13 @@ def detect_defects():
         d.append('errStateRace')            # state read before, written after the callbacks, no mutual exclusion
     # behavioural: canonical witnesses
     t = execute({'mode': 'sync', 'policy': ('fifo', 0), 'attempts': [{'api': 'plain', 'fault': [3, 'sender']}]}, want_ops=True)
-    if any(e['e'] == 'lerr' and not e['st'].startswith('err') for e in t['ev']):
-        d.append('errInSender')
+    sender = next((e['st'] for e in t['ev'] if e['e'] == 'op' and e['c'] == 'sender'), None)
+    so = [e for e in t['ev'] if e['e'] == 'op' and e['st'] == sender]
+    k0 = next((i for i, e in enumerate(so) if e['c'] == 'sender'), None)
+    if k0 is not None:
+        after = [e['k'] for e in so[k0 + 1:]]
+        if 'wl' in after and 'rel' in after and after.index('wl') < after.index('rel'):
+            d.append('errInSender')         # the tear-down (link = None) runs before _send_lock is released
     t = execute({'mode': 'sync', 'policy': ('fifo', 0), 'attempts': [{'api': 'sync', 'fault': [2, 'sender']}]}, want_ops=True)
     if any(p_['kind'] == 'sopen' for p_ in t['q']['pending']):
         d.append('syncOpenNoWake')
@@ -963,6 +977,17 @@ def _rev_latency_join(cf):
     lat.start, lat.stop = start, stop
 
 
+def _rev_sender_deferral(cf):
+    """1990dc5 reverted: _link_error_cb never finds a remembered-errors entry, so a report made from inside
+    send_packet is handled at once, under _send_lock.  For C02 this is observable only together with the join in
+    Latency.stop (dab8b8e reverted as well)."""
+    class NoDefer(dict):
+        def get(self, key, default=None):
+            return None
+    cf._sender_errors = NoDefer()
+    _rev_latency_join(cf)
+
+
 def _rev_send_finally(cf):
     from harness.vsched.vthreading import Timer
     _rev_close_reread(cf)                       # observable only together with an exception inside send_packet
@@ -1051,10 +1076,12 @@ REVERTS = {
     'revert:89ee29b-sync-wake': (_rev_sync_wake, ['syncOpenNoWake'], {'UseSync': 'TRUE'}, 'QuietOK'),
     'revert:12cf4de-dispatcher-link-once': (_rev_disp_reread, ['dispReread'], {}, 'NoThreadDies'),
     'revert:8221480-close-link-once': (_rev_close_reread, ['closeReread', 'errReread'], {'Closer': 'TRUE'}, 'NoThreadDies'),
-    'revert:4d1c0f8-send-finally': (_rev_send_finally, ['sendNoFinally', 'closeReread', 'errReread'],
+    'revert:1990dc5-sender-error-after-unlock': (_rev_sender_deferral, ['errInSender', 'stopJoins', 'pingSelfJoin'],
+                                                 {'FaultBy': '{"sender"}', 'MaxPings': 1}, 'NoJoinUnderSendLock'),
+    'revert:4d1c0f8-send-finally': (_rev_send_finally, ['sendNoFinally', 'closeReread', 'errReread', 'errInSender'],
                                     {'Closer': 'TRUE', 'FaultBy': '{"sender"}'}, 'NoLeakedSendLock'),
     'revert:dab8b8e-latency-no-join': (_rev_latency_join, ['stopJoins', 'pingSelfJoin'], {'FaultBy': '{"sender"}', 'MaxPings': 1},
-                                       'NoJoinUnderSendLock'),
+                                       'NoThreadDies'),
     'revert:6c1c06c-updater-release': (_rev_upd_release, ['updDoubleRelease'], {'FaultBy': '{"driver"}', 'MaxPings': 0}, 'NoThreadDies'),
     'revert:7e90fbe-fetcher-link-check': (_rev_fetcher_check, ['staleFetcher'], {'FaultBy': '{"sender"}', 'MaxPings': 0},
                                           'NoEarlyConnected'),
@@ -1248,9 +1275,19 @@ def lifecycle_race(t, clause, at):
         return False
     variant = 'reconnect' if any(x['e'] == 'open' and x['att'] >= 2 for x in ev[:max(at, 0)]) else 'during-teardown'
     if clause in ('SyncCallHangs', 'NotDisconnected', 'SpuriousDisconnected'):
-        hist = ev[:max(at, 0)]
-        race = (any(overlaps(w) for w in wins if w['b'] <= at) or any(stale_packet(i) for i in range(len(hist))) or
-                replaced_link_packet(at, 1))
+        # end-of-trace clauses: the attempt concerned (the one of the pending wrapper call, else the last one) must
+        # itself have been raced: one of its lifecycle routines overlapped one of another thread, or its set-up was
+        # driven by / delivered for a packet of a link that was gone
+        upto = max(at, 0)
+        if clause == 'SyncCallHangs':
+            atts = {p_['att'] for p_ in t['q']['pending'] if p_['kind'] in ('sopen', 'sclose')}
+        elif clause == 'NotDisconnected':
+            atts = {t['n']}
+        else:
+            atts = {w['att'] for w in wins}
+        race = any(w['att'] in atts and w['b'] <= upto and overlaps(w) for w in wins) or \
+            any(stale_packet(i) and ev[i]['att'] in atts for i in range(min(upto, len(ev)))) or \
+            any(replaced_link_packet(upto, a_) for a_ in atts)
         return variant if race else None
     if not 0 < at <= len(ev):
         return None
